@@ -17,7 +17,7 @@ def suites(tier):
     for tail in ((0, 2) if q else (0, 1, 2, 4, 5)):
         cfg = dict(tail=tail, ops=7 if q else 9)
         jobs.append(dict(id=jid("iso", cfg), func="zzH_C06_chunks", cfg=cfg))
-    s1 = dict(SRC, name="chunks", jobs=jobs, generate=scaled_constants(chunkSize=3))
+    s1 = src_suite("chunks", jobs, chunkSize=3)
     cfg = dict(ops=3 if q else 4)
-    s2 = dict(SRC, name="cache", jobs=[dict(id=jid("cache", cfg), func="zzH_C13_cache", cfg=cfg)], generate=scaled_constants(chunkSize=5))
+    s2 = src_suite("cache", [dict(id=jid("cache", cfg), func="zzH_C13_cache", cfg=cfg)], chunkSize=5)
     return [s1, s2]
